@@ -120,7 +120,17 @@ def _spaces(kind):
     return {"discrete": Discrete(5), "multidiscrete": MultiDiscrete((2, 3)), "multibinary": MultiBinary(3)}[kind]
 
 
-def _ac_policy(kind, key):
+def _scaled(policy, where, scale):
+    lin = where(policy)
+    return eqx.tree_at(lambda p: (where(p).weight, where(p).bias), policy, (lin.weight * scale, lin.bias * scale))
+
+
+def _ac_policy(kind, key, scale=1.0):
+    p = _ac_policy0(kind, key)
+    return p if scale == 1.0 else _scaled(p, lambda q: q.action_head.action_dist.mapping, scale)
+
+
+def _ac_policy0(kind, key):
     return MLPActorCriticPolicy(_Env(_spaces(kind), Box(-jnp.ones(OBS), jnp.ones(OBS))), feature_size=4, feature_width=8, feature_depth=1, value_width=8, value_depth=1, action_width=8, action_depth=1, key=jr.key(key))
 
 
@@ -155,7 +165,7 @@ def _allowed(kind, mask, a):
 
 def oracle_ac_policy(ctx: Ctx, case):
     kind = case["kind"]
-    policy = _ac_policy(kind, case["pkey"])
+    policy = _ac_policy(kind, case["pkey"], case.get("scale", 1.0))
     obs = jnp.asarray(case["obs"], dtype=jnp.float32)
     mask = jnp.asarray(np.asarray(case["mask"], bool))
     keys = jr.split(jr.key(case["key"]), NSAMP)
@@ -206,6 +216,8 @@ def _q_policy(eps, key):
 def oracle_q_policy(ctx: Ctx, case):
     eps = case["epsilon"]
     policy = _q_policy(eps, case["pkey"])
+    if case.get("scale", 1.0) != 1.0:
+        policy = _scaled(policy, lambda q: q.q_network.layers[-1], case["scale"])
     obs = jnp.asarray(case["obs"], dtype=jnp.float32)
     m = np.asarray(case["mask"], bool)
     mask = jnp.asarray(m)
@@ -239,7 +251,7 @@ def oracle_q_policy(ctx: Ctx, case):
 PARTS = {"categorical": oracle_categorical, "multicategorical": oracle_multicategorical, "bernoulli": oracle_bernoulli, "ac_policy": oracle_ac_policy, "q_policy": oracle_q_policy}
 
 # ----------------------------------------------------------------------------- generators
-_lg = st.one_of(st.integers(-3, 3).map(float), st.floats(-8, 8, allow_nan=False).map(lambda x: round(x, 3)), st.sampled_from([-30.0, 12.0]))
+_lg = st.one_of(st.integers(-3, 3).map(float), st.floats(-8, 8, allow_nan=False).map(lambda x: round(x, 3)), st.sampled_from([-30.0, 12.0, 400.0, -250.0, 130.0]))
 
 
 def exhaustive_categorical(ctx, max_n, draws):
@@ -255,6 +267,12 @@ def exhaustive_categorical(ctx, max_n, draws):
                     lg[int(np.argmin(bits))] = 9.0  # the unmasked arg-max is a masked action
                 if j == 1 and n >= 2:
                     lg[:] = lg[0]  # ties
+                if j == 2:
+                    # widely separated logits (Q-values / returns in the hundreds): every allowed
+                    # action's unmasked softmax probability underflows when the arg-max is masked
+                    lg = rng.normal(0, 200, n).round(1)
+                    if not all(bits):
+                        lg[int(np.argmin(bits))] = 900.0
                 yield {"logits": lg.tolist(), "mask": list(bits), "key": int(rng.integers(0, 2**31 - 1))}
 
 
@@ -290,6 +308,7 @@ def policy_cases(draw, kind):
     case = {"kind": kind, "mask": m, "obs": [draw(st.floats(-1, 1, allow_nan=False).map(lambda x: round(x, 3))) for _ in range(OBS)], "pkey": draw(st.integers(0, 2**31 - 2)), "key": draw(st.integers(0, 2**31 - 2))}
     if kind == "q":
         case["epsilon"] = draw(st.sampled_from([0.0, 0.25, 1.0, 0.05]))
+    case["scale"] = draw(st.sampled_from([1.0, 1.0, 30.0, 3000.0]))
     return case
 
 
